@@ -383,6 +383,7 @@ CHECK = Check(
         "< 2^30 ticks) at each report; every report serialises and parses back. Layer 2 feeds a real RTCRtpReceiver under "
         "virtual time and compares the RR packets it sends. Non-trivial = history has loss and reordering and crosses a "
         "sequence cycle or the timestamp wrap (layer 2: at least one RR compared and a sequence cycle)."
+        " The real-receiver family also feeds sender reports (any NTP timestamp) and steps the wall clock by -4e9..4e9 s: reports must keep coming every 0.5-1.5 s and stop() must return."
     ),
     families=[
         Family("statistics", run_stats, lambda tier: history(tier), quick=5000, thorough=250000),
